@@ -3,7 +3,7 @@
    the variable [expm] constrained by the oracle predicate [is_expm] (identity at 0, semigroup, derivative
    A . exp(tA)) plus [Hext] (depends on the n x n block only) and [Hdiag] (diagonal case).  The two-pool
    theorems at the end have NO such hypothesis.  Only statements, each closed by [exact]. *)
-From Coq Require Import List ZArith Reals.
+From Coq Require Import List ZArith Reals Bool.
 From Coquelicot Require Import Coquelicot.
 From EPG Require Import Scalar QI State CInst Evolution CDeriv CoefPhys Exchange ExchangeProofs.
 Import ListNotations.
@@ -169,7 +169,8 @@ Example C06_nonvacuous :
   let mat := [qr 3 4; qr 3 4; qr 1 2;  qr 1 4; qr 1 4; qr 1 2;  qr 1 4; qr 1 4; qr 1 2;  qr 3 4; qr 3 4; qr 1 2] in
   let s := mkSMN QIops [2%nat] 1 [qr 1 1; qr 1 1; qr 0 1;  qr 0 1; qr 0 1; qr 1 1]
              ([2%nat; 1%nat; 3%nat], [qr 0 1; qr 0 1; qr 1 1; qr 0 1; qr 0 1; qr 1 1]) [qr 1 1; qr 1 1] in
-  x_apply QIops (mkX QIops 0 [2%nat] mat ([2%nat; 2%nat], [qr 1 1; qr (-1) 1; qr (-1) 1; qr 1 1])) s =
-    XOk QIops [2%nat] [qr 3 4; qr 3 4; qr 1 1;  qr 1 4; qr 1 4; qr 1 1] /\
-  x_apply QIops (mkX QIops 0 [2%nat] mat ([2%nat; 2%nat], [qr 1 1; qr (-2) 1; qr (-1) 1; qr 2 1])) s = XErrConserve QIops.
-Proof. vm_compute. split; reflexivity. Qed.
+  (x_apply_ok QIops (mkX QIops 0 [2%nat] mat ([2%nat; 2%nat], [qr 1 1; qr (-1) 1; qr (-1) 1; qr 1 1])) s
+    0 [2%nat] [qr 3 4; qr 3 4; qr 1 2;  qr 1 4; qr 1 4; qr 1 2] &&
+  x_apply_ok QIops (mkX QIops 0 [2%nat] mat ([2%nat; 2%nat], [qr 1 1; qr (-2) 1; qr (-1) 1; qr 2 1])) s
+    1 [] [])%bool = true.
+Proof. vm_compute. reflexivity. Qed.
